@@ -144,7 +144,7 @@ def tlc(ctx, module, cfg_text, files=None, workers=1, timeout=1800, heap="4g", e
             if os.path.lexists(dstp):
                 os.remove(dstp)
             os.symlink(os.path.abspath(v), dstp)
-    jopts = ["-Xmx" + heap, "-Xss512m", "-XX:+UseParallelGC"]
+    jopts = ["-Xmx" + heap, "-Xss128m", "-XX:+UseParallelGC"]
     if dfs:
         jopts.append("-Dtlc2.tool.queue.IStateQueue=StateDeque")
     cmd = ["timeout", str(timeout), "java"] + jopts + ["-cp", TLC_CP, "tlc2.TLC", "-workers", str(workers),
@@ -152,6 +152,11 @@ def tlc(ctx, module, cfg_text, files=None, workers=1, timeout=1800, heap="4g", e
                                                           module + ".cfg"] + (extra or []) + [module + ".tla"]
     t = time.time()
     p = subprocess.run(cmd, cwd=d, stdout=subprocess.PIPE, stderr=subprocess.STDOUT, text=True)
+    if p.returncode not in (0, 124) and "states generated" not in p.stdout and "Error: " not in p.stdout:
+        # the JVM itself failed (resources); try once more
+        time.sleep(3)
+        shutil.rmtree(os.path.join(d, "meta"), ignore_errors=True)
+        p = subprocess.run(cmd, cwd=d, stdout=subprocess.PIPE, stderr=subprocess.STDOUT, text=True)
     out = p.stdout
     m = _STATES.findall(out)
     res = {"name": name, "module": module, "rc": p.returncode, "wall_s": round(time.time() - t, 2),
